@@ -68,6 +68,8 @@ def standin(tier, seed):
             for steps in (1, 2, 7, 40):
                 for ac in (True, False):
                     a, g = system(s)
+                    a.get_forces()                                   # fill the calculator cache ...
+                    a.set_positions(a.get_positions() + g.normal(size=(3, 3)) * 0.3)   # ... then move without evaluating
                     q0, p0 = a.get_positions(), a.get_momenta()
                     v = Verlet(dt=dt, max_steps=steps, apply_constraints=ac)
                     c = ctx_of(a, g)
@@ -111,6 +113,17 @@ def standin(tier, seed):
     V.case({"forced": True})
     if abs(Tk - T) > 1e-6 * T:
         V.add("MaxwellBoltzmann:forced_temperature", {"T": T}, f"kinetic temperature {Tk}")
+    # forced refresh with constraints removing degrees of freedom
+    from ase.constraints import FixAtoms
+    nb = 40
+    b = Atoms("C" * nb, positions=np.random.default_rng(seed).uniform(0, 9, (nb, 3)))
+    b.set_constraint(FixAtoms(indices=list(range(12))))
+    cb = ctx_of(b, np.random.default_rng(seed + 2), T)
+    maxwell_boltzmann_distribution(cb, forced=True)
+    Tb = 2 * b.get_kinetic_energy() / b.get_number_of_degrees_of_freedom() / kB
+    V.case({"forced": True, "constrained": True})
+    if abs(Tb - T) > 1e-6 * T:
+        V.add("MaxwellBoltzmann:forced_temperature_with_constraints", {"T": T, "fixed": 12, "atoms": nb}, f"kinetic temperature {Tb}")
     for s in range(seed, seed + 5):
         a, g = system(s)
         c = ctx_of(a, g)
@@ -119,6 +132,9 @@ def standin(tier, seed):
             maxwell_boltzmann_distribution(ctx)
             seen["ke"] = a.get_kinetic_energy()
         mv = HamiltonianDisplacementMove(distribution=dist, operation=Verlet(dt=0.5, max_steps=3))
+        answers = [False, False, True]
+        mv.check_move = lambda *a_, **k_: answers.pop(0)      # the first two attempts are refused
+        c.last_results = {}
         mv(c)
         V.case({"seed": s, "reference_ke": True})
         if abs(c.last_kinetic_energy - seen["ke"]) > 1e-12 * max(1.0, abs(seen["ke"])):
